@@ -663,6 +663,14 @@ func c07ExecInteg(sc c07Integ) (string, map[string]bool) {
 			}
 			labels["replica_moved"] = true
 			table[vb][k] = &cp{p[0], p[1]} // the copy now listed at that place has its own (possibly empty) report
+			// Between the map change and the library's start-over the cluster is in exactly this state (the active copy's
+			// report flips only at the start-over), and the library can learn it: the old round's request to the node that
+			// lost the copy is answered NOT_MY_VBUCKET with the new map and gocbcore re-sends it to the new copy. A
+			// threshold justified by this state is justified.
+			if r := rule(vb); r > threshold[vb] {
+				threshold[vb] = r
+				labels["threshold_from_rerouted_old_round"] = true
+			}
 			if !waitRestart(since) {
 				return fmt.Sprintf("vb %d: the cluster map changed (replica %d moved to another node, epoch bump=%v) but the library never started over under the new map (no re-read of the failover logs within 5 s): it keeps judging by a map that is no longer the cluster's", vb, k, stp.Epoch), labels
 			}
